@@ -26,6 +26,7 @@ var checks = map[string]func(tier string) int{
 	"C16": props.CheckC16,
 	"C17": props.CheckC17,
 	"C18": props.CheckC18,
+	"C19": props.CheckC19,
 }
 
 func main() {
